@@ -379,6 +379,7 @@ func typecheck(g *generated, level string) ([]typeError, error) {
 			asts = append(asts, f)
 			names = append(names, n)
 		}
+		perPkg := 0
 		conf := types.Config{
 			Importer:  setImporter{own},
 			GoVersion: "go1.23",
@@ -388,7 +389,8 @@ func typecheck(g *generated, level string) ([]typeError, error) {
 					p := e.Fset.Position(e.Pos)
 					te.File, te.Msg, te.Pos = p.Filename, e.Msg, fmt.Sprintf("%d:%d", p.Line, p.Column)
 				}
-				if len(out) < 50 {
+				if perPkg < 40 { // per package: a later package must never go unnoticed
+					perPkg++
 					out = append(out, te)
 				}
 			},
